@@ -83,9 +83,9 @@ def requirements(tier):
     req = {
         "steps-recomputed:euler": 1000, "steps-recomputed:rk4": 5000, "steps-recomputed:rkf54": 3000,
         "steps-recomputed:dopri54": 3000, "order-observed:euler": 60, "order-observed:rk4": 20,
-        "adaptive-accepted-steps-checked": 5000, "adaptive-reduced-steps": 100, "adaptive-global-checked": 60,
+        "adaptive-accepted-steps-checked": 5000, "adaptive:target-within-8-steps": 20, "adaptive-reduced-steps": 100, "adaptive-global-checked": 60,
         "energy-drift-order:euler": 60, "energy-drift-order:rk4": 60, "drift-adaptive-checked": 60,
-        "api:pairs-compared": 300, "api:vs-truth": 150, "api:backward-propagate": 20, "api:forward-propagate": 50,
+        "api:pairs-compared": 300, "api:reconfigured-instance": 30, "api:vs-truth": 150, "api:backward-propagate": 20, "api:forward-propagate": 50,
         "api:iter": 100, "api:ephem": 50, "api:arg:Date": 30, "api:arg:timedelta": 30,
         "direction:forward": 50, "direction:backward": 50, "stage-dates-recorded": 1000,
     }
@@ -491,6 +491,12 @@ def case_adaptive(ctx, job, idx, rng, st, o, date0):
     tol = gen.loguniform(rng, 1e-5, 1e-1) if rng.random() < 0.7 else None
     sgn = 1 if (idx // 8) % 2 == 0 else -1
     span = min(3 * o["T"], 700 * h) * rng.uniform(0.05, 1.0)
+    if idx % 3 == 0:
+        # target fewer than 8 steps away (often inside the first step), large nominal step: the integrator then adds
+        # support points beyond the target for the 8-point interpolation -- they are steps like the others
+        h = round(rng.uniform(60.0, 180.0), 3)
+        span = h * (rng.uniform(0.02, 0.9) if rng.random() < 0.6 else rng.uniform(0.9, 6.8))
+        ctx.count("adaptive:target-within-8-steps")
     t = sgn * round(span, 3)
     tol_eff = 1e-3 if tol is None else tol
     W = descr_of(o, method=method, h=h, tol=tol, target_s=t, date0=str(date0), r0=o["r"].tolist(), v0=o["v"].tolist(), mu=mu,
@@ -715,6 +721,33 @@ def case_api(ctx, job, idx, rng, st, o, date0):
                     j = rng.randrange(len(seq))
                     tj = us((seq[j].date - date0).total_seconds()) - us(off)
                     api_vs_truth(ctx, st, W, y0, us(off), ts, ys, tj, probe.arr(seq[j]), method, "iter-from-later-start")
+    # ---- history: one propagator object, used, then re-configured through its public attributes (method, step, tol),
+    # then used again: every step of the second run is a step of the integrator NOW chosen
+    if idx % 2 == 0:
+        m2 = rng.choice([m_ for m_ in METHODS if m_ != method])
+        h2 = round(rng.uniform(5.0, 30.0 if m2 == "euler" else 120.0), 3)
+        tol2 = gen.loguniform(rng, 1e-4, 1e-2)
+        t2 = round((1 if not backward else -1) * rng.uniform(9.0, 40.0) * h2, 3)
+        W2 = dict(W, history="same KeplerNum object after a first propagate(): .method, .step, .tol reassigned", method_2=m2, h_2=h2, tol_2=tol2, target_2_s=t2)
+        orb2 = make_orbit(o, date0, h, method, tol, rng, st)
+        try:
+            run_logged(st, lambda: orb2.propagate(td(t)))
+            orb2.propagator.method = m2
+            orb2.propagator.step = td(h2)
+            orb2.propagator.tol = tol2
+            res2, log2 = run_logged(st, lambda: orb2.propagate(td(t2)))
+        except Exception as exc:
+            ctx.violation("C06/propagate-raises-after-reconfiguration", dict(W2, exc=repr(exc)), f"propagate after re-configuration raised {exc!r}")
+            log2 = None
+        if log2:
+            ctx.count("api:reconfigured-instance")
+            ctx.expect(all(r_["method"] == m2 and abs(r_["h_cfg"] - h2) < 1e-9 for r_ in log2), "C06/reconfiguration-ignored", W2,
+                       "the steps after the re-configuration do not carry the new method / step")
+            verify_steps(ctx, st, log2, W2)
+            chains = split_chains(log2)
+            ts, ys = chain_nodes(chains[0])
+            api_vs_truth(ctx, st, W2, y0, 0, ts, ys, us(t2), probe.arr(res2), m2, "propagate")
+
     # ---- pairwise: the state returned for that date does not depend on the request pattern ----------
     names = sorted(results)
     for a_i in range(len(names)):
